@@ -356,6 +356,12 @@ pub fn handle(args: &[&str]) -> Option<String> {
             let flag = if *l == "1" { "-" } else { "" };
             run(&format!("std.format(\"%{}{}s\", [{}])", flag, w, lit(s)?), Ty::S)
         }
+        // the object form `%(k)Ns` has its own copy of the padding code (do_std_format_codes_object_2)
+        ["padobj", s, w, l] => {
+            let w: u32 = w.parse().ok()?;
+            let flag = if *l == "1" { "-" } else { "" };
+            run(&format!("std.format(\"%(k){}{}s\", {{k: {}}})", flag, w, lit(s)?), Ty::S)
+        }
         _ => None,
     }
 }
